@@ -210,3 +210,18 @@ func atBlockStart(n *engine.Node) bool {
 	k := n.Trace[len(n.Trace)-1].K
 	return k == world.KBlock || k == world.KReward
 }
+
+// historyHasSlash: the history of x (seed + explored operations, the current one included) contains a slash - of validator v
+// if v >= 0, by 100% if full. Known findings whose mechanism needs a slash are only accepted as the explanation of a
+// failure when the history has one; the same shape of state reached any other way is reported.
+func historyHasSlash(x *engine.Exec, v int, full bool) bool {
+	for _, op := range x.Next.History() {
+		if op.K != world.KSlash || (v >= 0 && op.V != v) {
+			continue
+		}
+		if !full || op.F == "1" || op.F == "1.0" || op.F == "1.000000000000000000" {
+			return true
+		}
+	}
+	return false
+}
